@@ -304,6 +304,26 @@ def check_sc(crate, rep, cfg):
         ok = bool(l_sc) and bool(r_after) and bool(patches) and all(any(b.dominates(r, p) for r in r_after) for p in patches)
         rep.add("C02.SC", "C02.SC:order", ok, b.where(fbb), "short-circuit: left operand compiled before the conditional jump, right operand only after it, jump "
                 "patched after the right operand (left %s, right %s, patches %s)" % (l_sc[:1], r_after[:1], patches[:2]) + ("" if ok else " — VIOLATED"))
+        # every and/or node owns its jump: it opens its own ShortCircuit body before compiling the left operand, and every path from the
+        # emission of the conditional jump to the return of this activation patches it (so the jump lands right after this node's own
+        # right operand, not at the end of some enclosing expression)
+        bodies = [bb for bb, idx, st in find_aggs(b, "parsing::compiler::ProcessingBody", "ShortCircuit")]
+        ok = bool(bodies) and bool(l_sc) and any(b.dominates(x, l_sc[0]) for x in bodies)
+        rep.add("C02.SC", "C02.SC:own-body", ok, b.where(bodies[0]) if bodies else b.where(fbb), "an and/or node always opens its own ShortCircuit body before compiling its left "
+                "operand" + ("" if ok else " — VIOLATED: the body is opened conditionally / shared with an enclosing chain"))
+        emis = [fbb] + ([ta[0][0]] if ta else [])
+        tr2 = Tracer(b)
+        pops = [bb for bb, t in find_calls(b, ["std::vec::Vec::<T, A>::pop"]) if any(".processing_bodies" in l.projs for l in tr2.operand(t["args"][0]))]
+        leaks = []
+        for e in emis:
+            reach = b.reach_from(e, removed_blocks=frozenset(pops))
+            leaks += [x for x in reach if b.term(x)["k"] == "return"]
+        # the patch loop runs over the jumps of the body that was just popped
+        from_pop = bool(patches) and all(any(b.dominates(pb, x) for pb in pops) for x in patches)
+        ok = bool(patches) and bool(pops) and not leaks and from_pop
+        rep.add("C02.SC", "C02.SC:patch-own-jump", ok, b.where(leaks[0]) if leaks else b.where(fbb), "every path from the emission of JumpIfFalseOrPop/JumpIfTrueOrPop to the return "
+                "of that compile_expr activation pops the node's ShortCircuit body, and the patch loop runs after that pop" + ("" if ok else " — VIOLATED: a path returns and "
+                "leaves the jump to be patched by someone else"))
     # ternary
     conds = [bb for bb, t in find_calls(b, ["parsing::compiler::Compiler::compile_expr"]) if any(".true_expr" in l.projs for l in tr.operand(t["args"][1]))]
     falses = [bb for bb, t in find_calls(b, ["parsing::compiler::Compiler::compile_expr"]) if any(".false_expr" in l.projs for l in tr.operand(t["args"][1]))]
